@@ -16,8 +16,14 @@
 (* call are evaluated with XPathSem!Eval - the evaluator is not transcribed again.                *)
 (* Scores are abstracted to BOOLEAN (eMatchScoreNone = FALSE): only "matches or not" is modelled. *)
 (* The algorithm is NOT the definition (XPathSem!Matches); where it is known to differ the class  *)
-(* is named KD_<key> (keys of /verif/known_findings.jsonl), MC_Pattern checks that they agree     *)
-(* everywhere else.                                                                              *)
+(* is named KD_<key> (keys of /verif/known_findings.jsonl and known_findings.d/C09.jsonl);        *)
+(* MC_Pattern checks that they agree everywhere else, Trace_C09impl compares the REAL matcher     *)
+(* with ImplMatchSet case by case.                                                               *)
+(* Limits of the transcription: the position cache (FindStep) is modelled for the predicates of   *)
+(* the match step itself; nested predicates inside a predicate expression are evaluated by the    *)
+(* definition, and a single predicate that calls position(), then evaluates a location path, then *)
+(* calls position() again is given one position value.  An in-place predicate sees position 1 of  *)
+(* 1 (it never calls position()/last() itself: such predicates go through handleFoundIndex).      *)
 EXTENDS XPathSem
 
 Null == <<0, 0, 0>>                                  \* the null XalanNode*
